@@ -7,7 +7,7 @@ GEN = []
 LEAN = ["Ymq.Props.C09"]
 AUDIT = "Ymq.Audit.C09"
 THEOREMS = ["Ymq.C09.reduce64_inv", "Ymq.C09.step_gcd", "Ymq.C09.gcd_internal_spec", "Ymq.C09.gcd_terminates", "Ymq.C09.big_gcd_spec",
-            "Ymq.C09.inv_mod_spec"]
+            "Ymq.C09.inv_mod_spec", "Ymq.C09.mulword_no_panic", "Ymq.C09.no_panic_partial"]
 PROFILES = ["release", "chk"]
 TIMEOUT = 20.0
 W = 1 << 64
